@@ -255,6 +255,13 @@ pub(crate) fn check_repository<S: Open>(
         }
     }
 
+    // the id of a snapshot or index file is the hash of its content
+    for file_type in [FileType::Snapshot, FileType::Index] {
+        let p = repo.progress_spinner(&format!("checking ids of {file_type:?} files..."));
+        check_file_ids(raw_be, file_type, &collector)?;
+        p.finish();
+    }
+
     let (index_collector, missing_packs) = check_packs(repo, be, hot_be.as_ref(), &collector)?;
 
     if let Some(cache) = &cache {
@@ -332,6 +339,44 @@ pub(crate) fn check_repository<S: Open>(
 /// # Errors
 ///
 /// * If a file is missing or has a different size
+/// Checks that the id of each file of the given type is the hash of its content
+///
+/// # Arguments
+///
+/// * `be` - The backend to read from
+/// * `file_type` - The type of the files to check
+/// * `collector` - The collector for the findings
+///
+/// # Errors
+///
+/// * If the files could not be listed
+fn check_file_ids(
+    be: &impl ReadBackend,
+    file_type: FileType,
+    collector: &CheckResultsCollector,
+) -> RusticResult<()> {
+    be.list(file_type)?
+        .into_par_iter()
+        .for_each(|id| match be.read_full(file_type, &id) {
+            Err(err) => collector.add_error(CheckError::ErrorReadingFile {
+                id,
+                file_type,
+                source: err,
+            }),
+            Ok(data) => {
+                let comp_id = hash(&data);
+                if comp_id != id {
+                    collector.add_error(CheckError::FileHashMismatch {
+                        id,
+                        file_type,
+                        comp_id,
+                    });
+                }
+            }
+        });
+    Ok(())
+}
+
 fn check_hot_files(
     be: &impl ReadBackend,
     be_hot: &impl ReadBackend,
@@ -854,6 +899,12 @@ pub enum CheckError {
     },
     /// Cached file Type: {file_type:?}, Id: {id} is not identical to backend!
     CacheMismatch { id: Id, file_type: FileType },
+    /// file Type: {file_type:?}, Id: {id}: Hash mismatch. Computed hash: {comp_id}
+    FileHashMismatch {
+        id: Id,
+        file_type: FileType,
+        comp_id: Id,
+    },
     /// pack {id}: No time is set! Run prune to correct this!
     PackTimeNotSet { id: PackId },
     /// pack {id}: blob {blob_id} blob type does not match: type: {blob_type:?}, expected: {expected:?}
